@@ -35,7 +35,10 @@ RULE = (
     "calls (3 SAPs x confirmed/unconfirmed x rate 1/2 + one other rate x blocks-to-follow 1, 2) whose first six user-data "
     "octets take values from {00,01,7F,80,81,FF} on two positions at a time (positions (3,4): all 36 pairs x 3 fills x "
     "both timeslots; the other position pairs: 4 sampled pairs each); 'long_runs' adds 24 deterministic histories with >= 512 "
-    "bursts on one timeslot before the first ended, then the end and a second call.  In about half of all histories (every "
+    "bursts on one timeslot before the first ended, then the end and a second call.  'near_sync' places valid EMB bursts whose 48 centre bits are at Hamming distance 1..3 from each of the 10 SYNC words at "
+    "every position B..F of a superframe (such bursts are also a machine rule and part of the scripted voice calls); 'repeats' "
+    "runs each burst class 300 times in each tracker mode and 2-3 op blocks N times (N up to 300; the machine has a repeat rule "
+    "with the same counts).  In about half of all histories (every "
     "sub-check) the parsed Burst objects are stamped, before they are fed, with the metadata a transport adapter "
     "(Burst.from_hytera_ipsc / from_mmdvm) sets: a hash-derived sequence_no 0..255, a non-empty (mostly already used) "
     "stream_no, radio ids, timeslot; ops may also feed the same Burst object again (it then carries the library's own "
@@ -56,6 +59,9 @@ ASSUMPTIONS = [
     "no liveness is demanded (the statement does not say *when* a transmission must end) - that part is C07's",
     "voice bursts that precede the first voice-sync burst of a voice transmission (late entry) carry no label requirement",
     "Timeslot.last_packet_received (wall clock) is not observed",
+    "an op whose burst the library under test cannot serialise / parse is skipped and counted (excluded_by_construction "
+    "'op_skipped_burst_not_parseable_on_this_tree', class history_with_unparseable_burst_skipped): it is not a parseable burst; on "
+    "/repo the count is 0",
     "library surface the harness relies on (all used by the repository's own tests or documented as the observation points of the "
     "property): Terminal(dmrid, observers), Terminal.timeslots[n], WithObservers.add_observer, Terminal.process_incoming_burst, "
     "the three observer callbacks, Burst.from_bytes / as_bytes and the Burst attributes sequence_no, stream_no, voice_burst, the "
@@ -211,8 +217,7 @@ def _build_burst(op):
             emb = L["EmbeddedSignalling"](colour_code=cc, preemption_and_power_control_indicator=op.get("pi", 0), link_control_start_stop=op.get("lcss", 0)).as_bits()
             center = emb[:8] + int2ba(op.get("e32", 0), length=32) + emb[8:]
         full = voice[:108] + center + voice[108:]
-        b = L["Burst"](full_bits=full, burst_type=L["BurstTypes"].Vocoder)
-        return b.as_bytes(), "Vocoder"
+        return full.tobytes(), "Vocoder"  # the 33 octets as they come off the air (on /repo identical to Burst(full).as_bytes())
 
     DT = L["DataTypes"]
     if k in ("vhdr", "term"):
@@ -468,6 +473,7 @@ class Runner:
         self.n_fed = 0
         self.n_stamped = 0
         self.n_same_object = 0
+        self.n_skipped = 0
 
     def close(self):
         self.ids.remove()
@@ -489,13 +495,19 @@ class Runner:
             raw, btype = build_burst(op)
         except (HarnessError, Fail):
             raise
-        except Exception as e:  # the generator must only produce PDUs the library serialises
-            raise HarnessError(f"harness could not build burst for {op}: {type(e).__name__}: {e}")
+        except Exception:
+            # On /repo every op of the alphabet builds (the green runs show 0 skipped ops).  On a changed tree a burst the library
+            # can no longer serialise / parse is outside the statement's domain ("parseable bursts"): skip the op, count it.
+            self.n_skipped += 1
+            return
         same = bool(op.get("same"))  # feed the very same Burst object again (it then carries the library's earlier numbering)
         burst = None
         for _ in range(int(op.get("rep", 1))):
             if burst is None or not same:
                 burst = self.parse(op, raw, btype)
+                if burst is None:
+                    self.n_skipped += 1
+                    return
             else:
                 self.n_same_object += 1
             self.feed(op, burst)
@@ -504,8 +516,8 @@ class Runner:
         L = self.L
         try:
             burst = L["Burst"].from_bytes(raw, burst_type=L["BurstTypes"][btype])
-        except Exception as e:
-            raise HarnessError(f"burst built for {op} is not parseable: {type(e).__name__}: {e}")
+        except Exception:
+            return None  # not a parseable burst on this tree (see apply)
         if self.inbound is not None:
             # what a transport adapter (Burst.from_hytera_ipsc / from_mmdvm) sets from the frame before the burst reaches the terminal
             hv = int.from_bytes(hashlib.sha256(f"inbound:{self.inbound}:{self.n_fed}".encode()).digest()[:8], "big")
@@ -758,6 +770,8 @@ class Runner:
             out.append("history_with_terminal_raiser_fired")
         if not (s["ended_voice"] or s["ended_data"]):
             out.append("history_without_any_ended")
+        if self.n_skipped:
+            out.append("history_with_unparseable_burst_skipped")
         if not self.exact_ids:
             out.append("history_with_stream_id_shim_ineffective")
         if self.idle_unobservable:
@@ -803,8 +817,11 @@ def _strategies():
     data = st.sampled_from(["1/2", "1/2", "3/4", "1"]).flatmap(data_for)
     toggle = st.one_of(d(k="raise", who=st.sampled_from(["t", "ts1", "ts2"]), on=st.booleans()), d(k="raise", who=st.sampled_from(["t", "ts1", "ts2"]), on=st.booleans()),
                        d(k="inbound", on=st.booleans(), salt=st.integers(0, 1000)))
+    near = st.tuples(ts, x, st.sampled_from(near_sync_emb_fields())).map(lambda p: {"k": "vemb", "ts": p[0], "x": p[1], **p[2][0]})
+    repeat = st.tuples(st.one_of(vemb, vhdr, vsync, term, dhdr, pre, csbk, data, near), st.one_of(st.integers(2, 12), st.integers(2, 12), st.sampled_from(REPEAT_COUNTS)), st.booleans()).map(
+        lambda p: {**p[0], "rep": p[1], "same": p[2]})
     again = st.tuples(st.one_of(vemb, vemb, vsync, csbk, data, pre, vhdr), st.integers(2, 4)).map(lambda p: {**p[0], "rep": p[1], "same": True})
-    rules = {"vhdr": vhdr, "term": term, "vsync": vsync, "vemb": vemb, "dhdr": dhdr, "pre": pre, "csbk": csbk, "data": data, "data2": data, "toggle": toggle, "again": again}
+    rules = {"vhdr": vhdr, "term": term, "vsync": vsync, "vemb": vemb, "dhdr": dhdr, "pre": pre, "csbk": csbk, "data": data, "data2": data, "toggle": toggle, "again": again, "vemb_near_sync": near, "repeat": repeat}
 
     # ---- scripted prefixes -----------------------------------------------------------------------
     @st.composite
@@ -832,8 +849,13 @@ def _strategies():
         frames = draw(st.integers(0, 3))
         for f in range(frames):
             ops.append({"k": "vsync", "ts": t, "sync": draw(st.sampled_from(VOICE_SYNCS)), "x": xx + f})
-            for i in range(draw(st.sampled_from([5, 5, 5, 2, 8]))):
-                ops.append({"k": "vemb", "ts": t, "cc": c, "pi": 0, "lcss": (1, 3, 3, 2, 0)[i % 5], "e32": draw(st.integers(0, 2**32 - 1)), "x": xx + 10 * f + i})
+            n_emb = draw(st.sampled_from([5, 5, 5, 2, 8]))
+            near_at = draw(st.integers(0, 2 * n_emb))  # about half of the superframes carry one EMB burst that is close to a SYNC word
+            for i in range(n_emb):
+                if i == near_at:
+                    ops.append({"k": "vemb", "ts": t, "x": xx + i, **draw(st.sampled_from(near_sync_emb_fields()))[0]})
+                else:
+                    ops.append({"k": "vemb", "ts": t, "cc": c, "pi": 0, "lcss": (1, 3, 3, 2, 0)[i % 5], "e32": draw(st.integers(0, 2**32 - 1)), "x": xx + 10 * f + i})
         if draw(st.booleans()):
             ops.append({**hdr, "k": "term"})
         return ops
@@ -1102,6 +1124,9 @@ def _judge_history(ctx: Ctx, sub_name: str, case, t: Tally):
             ctx.judge(sub_name, case, Fail("no_unexpected_exception", f"{type(e).__name__}: {e}", "no exception", exc_klass(e)), t)
     finally:
         r.close()
+    if r.n_skipped:
+        t.cls(sub_name, "history_with_unparseable_burst_skipped")
+        t.excluded["op_skipped_burst_not_parseable_on_this_tree"] += r.n_skipped
     return r
 
 
@@ -1174,10 +1199,169 @@ def drv_long_runs(ctx: Ctx, sub: SubCheck):
     ctx.tally.notes.append("long_runs: deterministic histories of >= 512 bursts on one timeslot without an 'ended' (two wraps of the receive sequence counter), then end + second call; identical in both tiers")
 
 
+# ---------------------------------------------------------------------------------------------- near-collisions: EMB bursts close to a SYNC word
+
+_NEAR_SYNC = {}
+
+
+def near_sync_emb_fields(max_distance=3, per_cell=6):
+    """[(fields of a vemb op, sync name, Hamming distance)]: VALID EMB bursts (library-built EMB word for (cc, pi, lcss)) whose
+    48 centre bits lie at Hamming distance 1..max_distance from a SYNC word S of table 9.2 (all 10 words: voice, data, RC,
+    reserved): centre = E[0:8] + (S[8:40] with a few bits flipped) + E[8:16] for the EMB codewords E nearest to S's outer 16
+    bits (the construction of props/c01.py voice_near_sync).  When no codeword is within max_distance of S's outer bits the
+    nearest ones are taken as they are.  Deterministic; none of the centres IS a SYNC word."""
+    if "v" in _NEAR_SYNC:
+        return _NEAR_SYNC["v"]
+    L = _Lib.get()
+    syncs = [(m.name, m.value) for m in L["SyncPatterns"] if m.name != "EmbeddedSignalling"]
+    sync_values = {v for _, v in syncs}
+    words = {}
+    for cc in range(16):
+        for pi in (0, 1):
+            for lcss in range(4):
+                w = int(L["EmbeddedSignalling"](colour_code=cc, preemption_and_power_control_indicator=pi, link_control_start_stop=lcss).as_bits().to01(), 2)
+                words[(cc, pi, lcss)] = w
+    out = []
+    for name, S in syncs:
+        outer, mid = ((S >> 40) << 8) | (S & 0xFF), (S >> 8) & 0xFFFFFFFF
+        ranked = sorted(words.items(), key=lambda kv: (bin(kv[1] ^ outer).count("1"), kv[0]))
+        dmin = bin(ranked[0][1] ^ outer).count("1")
+        chosen = [kv for kv in ranked if bin(kv[1] ^ outer).count("1") <= max(max_distance, dmin)][:per_cell]
+        for (cc, pi, lcss), w in chosen:
+            d0 = bin(w ^ outer).count("1")
+            flip_sets = [()]
+            h = int.from_bytes(hashlib.sha256(f"near:{name}:{cc}:{pi}:{lcss}".encode()).digest()[:8], "big")
+            p1, p2, p3 = h % 32, (h >> 8) % 32, (h >> 16) % 32
+            flip_sets += [(p1,), (0,), (31,), tuple(sorted({p1, p2})), tuple(sorted({p1, p2, p3}))]
+            for fl in flip_sets:
+                e32 = mid
+                for b in fl:
+                    e32 ^= 1 << (31 - b)
+                d = d0 + len(fl)
+                centre = ((w >> 8) << 40) | (e32 << 8) | (w & 0xFF)
+                if d == 0 or centre in sync_values or (d > max_distance and d > dmin):
+                    continue
+                out.append(({"cc": cc, "pi": pi, "lcss": lcss, "e32": e32}, name, d))
+    _NEAR_SYNC["v"] = out
+    return out
+
+
+def _near_sync_histories():
+    """every near-SYNC EMB burst at every position B..F of a superframe of an open voice call (header, exact-SYNC burst A, EMB
+    bursts), followed by the rest of the superframe and the start of the next one; expected labels come from the model, in
+    which only an exact SYNC word starts a superframe.  Alternating timeslots / inbound metadata."""
+    out = []
+    for i, (f, name, d) in enumerate(near_sync_emb_fields()):
+        for pos in range(1, 6):
+            ts = 1 + (i + pos) % 2
+            vh = {"k": "vhdr", "ts": ts, "cc": f["cc"], "flco": "group", "so": 0, "pf": 0, "crc": 0, "x": 5}
+            plain = {"k": "vemb", "ts": ts, "cc": f["cc"], "pi": 0, "lcss": 0, "e32": 0x12345678, "x": 2}
+            near = {"k": "vemb", "ts": ts, "x": 3, **f}
+            sync = {"k": "vsync", "ts": ts, "sync": VOICE_SYNCS[(i + pos) % 4], "x": 1}
+            ops = ([INBOUND_ON] if (i + pos) % 4 == 3 else []) + [vh, sync]
+            ops += [near if j == pos else {**plain, "lcss": (1, 3, 3, 2, 0)[j - 1], "x": j} for j in range(1, 6)]
+            ops += [sync, plain, near, plain, {**vh, "k": "term"}, plain]
+            out.append(({"ops": ops}, f"near_{name}_distance_{d}", f"position_{LABELS[pos][-1]}"))
+    return out
+
+
+def drv_near_sync(ctx: Ctx, sub: SubCheck):
+    note_shim(ctx)
+    items = _near_sync_histories()
+    chunks = [items[i::64] for i in range(64)]
+
+    def work(chunk, t: Tally):
+        for j, (case, label, pos) in enumerate(chunk):
+            r = _judge_history(ctx, sub.name, case, t)
+            t.case(sub.name, nontrivial=r.nontrivial(), cls=label)
+            t.cls(sub.name, pos)
+            if r.stats["labels_checked"] >= 9:
+                t.cls(sub.name, "history_with_all_labels_checked")
+            if j == 0:
+                t.sample(sub.name, case)
+
+    ctx.shards(work, [c for c in chunks if c])
+    fields = near_sync_emb_fields()
+    ctx.tally.extra["near_sync_emb_bursts"] = len(fields)
+    ctx.tally.extra["near_sync_min_distance"] = min(d for _, _, d in fields)
+    ctx.tally.notes.append("near_sync: valid EMB bursts at Hamming distance 1..3 (or the minimum reachable) from each of the 10 SYNC words, at positions B..F of a superframe; identical in both tiers")
+
+
+# ---------------------------------------------------------------------------------------------- directed: long homogeneous runs
+
+REPEAT_COUNTS = [2, 3, 4, 5, 6, 7, 8, 9, 10, 11, 12, 16, 17, 31, 32, 33, 64, 100, 128, 255, 256, 257, 300]
+
+
+def _repeat_histories():
+    """(a) every burst class repeated 300 times (re-parsed, and as the same Burst object) in every tracker mode: idle, voice
+    call open (with a superframe under way), data transmission open with a header (blocks-to-follow 127) and without one;
+    followed by a fixed tail (terminator, a complete second voice call, a complete data call) so that the restart / idle /
+    hand-over clauses are judged after the run.  (b) short blocks of 2-3 ops repeated N times for N in REPEAT_COUNTS:
+    [sync, EMB], [voice header, terminator], [data header btf 1, block], [preamble, data header btf 1, block]."""
+    out = []
+    ts = 1
+    vh = {"k": "vhdr", "ts": ts, "cc": 1, "flco": "group", "so": 0, "pf": 0, "crc": 0, "x": 5}
+    sync = {"k": "vsync", "ts": ts, "sync": "MsSourcedVoice", "x": 1}
+    emb = {"k": "vemb", "ts": ts, "cc": 1, "pi": 0, "lcss": 3, "e32": 0xCAFEF00D, "x": 2}
+    hdr1 = {"k": "dhdr", "ts": ts, "cc": 1, "fmt": "unconfirmed", "btf": 1, "a": False, "sap": "IP_PacketData", "poc": 0, "x": 9}
+    blk = {"k": "data", "ts": ts, "cc": 1, "rate": "1/2", "hex": "a5" * 12}
+    classes = {
+        "vhdr": vh, "term": {**vh, "k": "term"}, "vsync": sync, "vemb": emb,
+        "near_sync_emb": {"k": "vemb", "ts": ts, "x": 3, **near_sync_emb_fields()[0][0]},
+        "dhdr_confirmed": {**hdr1, "fmt": "confirmed", "a": True, "btf": 127, "sap": "UDP_IP_compression"}, "dhdr_unconfirmed_btf0": {**hdr1, "btf": 0},
+        "dhdr_response": {**hdr1, "fmt": "response", "btf": 2}, "dhdr_short_defined": {**hdr1, "fmt": "short_defined", "btf": 3}, "dhdr_udt": {**hdr1, "fmt": "udt", "btf": 1},
+        "pre": {"k": "pre", "ts": ts, "cc": 1, "btf": 4, "x": 13}, "pre_btf0": {"k": "pre", "ts": ts, "cc": 1, "btf": 0, "x": 13}, "csbk": {"k": "csbk", "ts": ts, "cc": 1, "op": "aloha", "x": 14},
+        "data_1/2": blk, "data_3/4": {**blk, "rate": "3/4", "hex": "00" * 18}, "data_1": {**blk, "rate": "1", "hex": "ff" * 24},
+    }
+    modes = {
+        "idle": [],
+        "voice": [vh, sync, emb, emb],
+        "data_with_header": [{**hdr1, "btf": 127, "x": 21}],
+        "data_without_header": [{"k": "csbk", "ts": ts, "cc": 1, "op": "bs_down", "x": 3}],
+    }
+    tail = [{**vh, "k": "term"}, vh, sync, emb, emb, {**vh, "k": "term"}, hdr1, blk, emb]
+    i = 0
+    for cname, op in classes.items():
+        for mname, prefix in modes.items():
+            i += 1
+            pre = [INBOUND_ON] if i % 2 else []
+            out.append(({"ops": pre + prefix + [{**op, "rep": 300, "same": bool(i % 3 == 0)}] + tail}, f"class_{cname}_x300", f"mode_{mname}"))
+    blocks = {
+        "sync_emb": [sync, emb], "header_terminator": [vh, {**vh, "k": "term"}], "data_call": [hdr1, blk],
+        "preamble_data_call": [{"k": "pre", "ts": ts, "cc": 1, "btf": 2, "x": 13}, hdr1, blk],
+    }
+    for bname, block in blocks.items():
+        for n in REPEAT_COUNTS:
+            i += 1
+            pre = [INBOUND_ON] if i % 2 else []
+            lead = [vh] if bname == "sync_emb" else []
+            out.append(({"ops": pre + lead + block * n + tail}, f"block_{bname}", f"repeated_{n}"))
+    return out
+
+
+def drv_repeats(ctx: Ctx, sub: SubCheck):
+    note_shim(ctx)
+    items = _repeat_histories()
+    items.sort(key=lambda it: -sum(int(o.get("rep", 1)) for o in it[0]["ops"]))
+
+    def work(item, t: Tally):
+        case, label, sublabel = item
+        r = _judge_history(ctx, sub.name, case, t)
+        t.case(sub.name, nontrivial=r.nontrivial(), cls=label)
+        t.cls(sub.name, sublabel)
+        for c in r.classes():
+            t.cls(sub.name, c)
+
+    ctx.shards(work, items)
+    ctx.tally.notes.append("repeats: every burst class x300 in every tracker mode, and 2-3 op blocks repeated N times (N up to 300); identical in both tiers")
+
+
 SUBCHECKS = [
     SubCheck("short_histories", oracle_history, drv_exhaustive, "all sequences up to length 4 (quick) / 5 (thorough) over an 11-burst reduced alphabet, invariants I1..I7 after every burst"),
     SubCheck("short_data_boundary", oracle_history, drv_boundary, "directed: header + 1..2 blocks, 3 SAPs x 2 modes x rates x both timeslots, first six user-data octets from {00,01,7F,80,81,FF} on two positions at a time ((3,4) complete), I1..I7"),
     SubCheck("long_runs", oracle_history, drv_long_runs, "directed: >= 2 x 256 bursts on one timeslot without an ended (voice: separate ops / re-parsed / same Burst object; data: CSBK run), pristine and with inbound numbering, then end + second call"),
+    SubCheck("near_sync", oracle_history, drv_near_sync, "directed: valid EMB bursts whose 48 centre bits are at Hamming distance 1..3 from each of the 10 SYNC words, at every position B..F of a superframe; labels per the model (only an exact SYNC starts a superframe)"),
+    SubCheck("repeats", oracle_history, drv_repeats, "directed: each of 16 burst classes repeated 300 times in each of 4 tracker modes (idle, voice, data with / without header), and 2-3 op blocks repeated N times (N in {2..12,16,17,31..33,64,100,128,255..257,300}), then a fixed tail of complete calls"),
     SubCheck("machine", oracle_history, drv_machine, "Hypothesis RuleBasedStateMachine over the full alphabet with generated fields, scripted prefixes, raiser toggles"),
 ]
 PREDICATES = {}
